@@ -92,7 +92,7 @@ class Config(dict):
                     admins=(ADMIN,), project_leaders=(),
                     pr_author_options=None, send_bot_status=False,
                     max_commit_diff=0, jira=False, cred=False,
-                    password=None, log_level=None)
+                    password=None, log_level=None, clock=False)
 
     def __init__(self, **kw):
         d = dict(self.DEFAULTS)
@@ -419,6 +419,7 @@ class World:
 
     # -- initial state --------------------------------------------------------
     def init_layout(self):
+        set_clock(0)
         if os.path.isdir(self.remote):
             shutil.rmtree(self.remote)
         os.makedirs(self.remote)
